@@ -103,6 +103,33 @@ example : decodeSeries pinnedCfg ⟨[45], []⟩ (fuelOf 5) [0x66, 0x6f, 0x6f, 0x
 example : decodeSeries fixedCfg ⟨[45], []⟩ (fuelOf 5) [0x66, 0x6f, 0x6f, 0x20, 0x7b] =
     .ok (.errors 1 ⟨"jsonx.expectObjectEntry", 1, 5⟩ 3) := by decide
 
+/-- **Without the `InError` break `parseListEntries` diverges**: `[` followed by
+    EOF keeps failing to parse an operand for ever (the hypothesis
+    `GoodCfg.listBreaks` of the termination theorems is necessary). -/
+theorem list_without_break_diverges (c : Cfg) (hl : c.listBreaks = false) (s : PS)
+    (hcur : s.seeOp '[' = true) (hrest : s.rest = []) : ∀ fuel, parseValue c fuel s = .outOfFuel := by
+  intro fuel
+  cases fuel with
+  | zero => rfl
+  | succ n =>
+    have hop : s.cur.kind = .op ∧ s.cur.op = 91 := by simpa [PS.seeOp] using hcur
+    have hnext : (s.next c).AtEof := by simp [PS.AtEof, PS.next, hrest, nextTok, PS.eofTok]
+    have h1 : s.see .keyword = false := by simp [PS.see, hop.1]
+    have h2 : s.see .str = false := by simp [PS.see, hop.1]
+    have h3 : s.see .int = false := by simp [PS.see, hop.1]
+    have h4 : s.see .float = false := by simp [PS.see, hop.1]
+    have h5 : s.seeOp '+' = false := by simp [PS.seeOp, hop.2]
+    have h6 : s.seeOp '-' = false := by simp [PS.seeOp, hop.2]
+    have h7 : s.seeOp '{' = false := by simp [PS.seeOp, hop.2]
+    unfold parseValue
+    simp only [h1, h2, h3, h4, h5, h6, h7, hcur, Bool.false_eq_true, if_false, if_true, Bool.or_self]
+    rw [listLoop_no_break_diverges c hl n n (s.next c) hnext]
+    rfl
+
+example : ∀ fuel, parseValue { fixedCfg with listBreaks := false } fuel
+    { cur := { kind := .op, op := 91, line := 1, col := 1 }, rest := [], eofLine := 1, eofCol := 1 } = .outOfFuel :=
+  list_without_break_diverges _ rfl _ (by decide) rfl
+
 /-! ## the parser over any token stream -/
 
 /-- **`parseValue` terminates** on every token stream, with fuel two above the
